@@ -25,9 +25,55 @@ func main() {
 	switch os.Args[1] {
 	case "intents":
 		intents(os.Args[2:])
+	case "txn":
+		txn(os.Args[2:])
 	default:
 		die(fmt.Errorf("unknown engine %q", os.Args[1]))
 	}
+}
+
+func txn(args []string) {
+	fs := flag.NewFlagSet("txn", flag.ExitOnError)
+	in := fs.String("in", "", "schedules file (ndjson)")
+	out := fs.String("out", "", "trace file (ndjson, appended)")
+	skip := fs.Int("skip", 0, "skip the first n behaviours (restart after a crash)")
+	fs.Parse(args)
+	w, err := env.NewWorld("g0", "")
+	if err != nil {
+		die(err)
+	}
+	defer w.Close()
+	f, err := os.Open(*in)
+	if err != nil {
+		die(err)
+	}
+	defer f.Close()
+	of, err := os.OpenFile(*out, os.O_APPEND|os.O_CREATE|os.O_WRONLY, 0o644)
+	if err != nil {
+		die(err)
+	}
+	defer of.Close()
+	r := &drive.TxnRunner{W: w, Out: of}
+	sc := bufio.NewScanner(f)
+	sc.Buffer(make([]byte, 1<<20), 1<<26)
+	n := 0
+	for sc.Scan() {
+		if len(sc.Bytes()) == 0 {
+			continue
+		}
+		n++
+		if n <= *skip {
+			continue
+		}
+		var b drive.TxnBehaviour
+		if err := json.Unmarshal(sc.Bytes(), &b); err != nil {
+			die(err)
+		}
+		if err := r.Run(&b); err != nil {
+			die(err)
+		}
+	}
+	fmt.Printf("schedules=%d\n", r.N)
 }
 
 func intents(args []string) {
